@@ -82,12 +82,26 @@ def bind(facts):
     tags = {}
     # WAIT-TURN-W: a local function that receives on the `trigger` channel of a SequentialWriter
     # WAIT-TURN-R: ... on the `Waiting(recv)` channel of a SequentialReader
-    for f, bb, t in facts.all_calls(lambda t: call_is(t, RECV)):
+    # (directly, or through private helpers of the same file: a generic `Turn::wait` shared by both sides)
+    recv_fns = {f.id for f, bb, t in facts.all_calls(lambda t: call_is(t, RECV))}
+    def reaches_recv(fid, file, seen):
+        if fid in recv_fns:
+            return True
+        if fid in seen:
+            return False
+        seen.add(fid)
+        g = facts.fns.get(fid)
+        if g is None or not g.rec.get("local") or g.file != file:
+            return False
+        for bb, t in g.calls():
+            c = call_name(t)
+            if c in facts.local_fns and reaches_recv(c, file, seen):
+                return True
+        return any(reaches_recv(c, file, seen) for c in facts.local_fns if c.startswith(fid + "::{closure"))
+    for k, f in facts.local_fns.items():
         impl_adt = f.rec.get("impl_self_adt")
-        if impl_adt == SW:
-            tags.setdefault(f.id, set()).add("WAIT-TURN-W")
-        elif impl_adt == SR:
-            tags.setdefault(f.id, set()).add("WAIT-TURN-R")
+        if impl_adt in (SW, SR) and reaches_recv(k, f.file, set()):
+            tags.setdefault(f.id, set()).add("WAIT-TURN-W" if impl_adt == SW else "WAIT-TURN-R")
     facts.def_tags.update(tags)
     facts._roles_bound = True
     facts.turn_wait_fns = tags
